@@ -15,7 +15,9 @@ TREE = {
     "/w": (["proj", "other", "proj-legacy"], []),
     "/w/proj-legacy": ([], ["l.py"]),
     "/w/other": ([], ["o.py"]),
-    "/w/proj": ([".hid", "sub", "build", "_priv", "gen"], ["a.py", ".dot.py", "b.xyz", "c.rb", "skip.py", "d.js", "__init__.py", "noext", "SConstruct"]),
+    # two hidden directories and two hidden files next to each other in one listing (a filter that drops entries while it walks the list)
+    "/w/proj": ([".hid", ".hid2", "sub", "build", "_priv", "gen"], ["a.py", ".dot.py", ".env.py", "b.xyz", "c.rb", "skip.py", "d.js", "__init__.py", "noext", "SConstruct"]),
+    "/w/proj/.hid2": ([], ["h2.py"]),
     "/w/proj/gen": ([], ["keep.py", "other.py"]),
     "/w/proj/_priv": ([], ["p.py"]),
     "/w/proj/.hid": ([], ["h.py"]),
